@@ -9,9 +9,12 @@
 
     FULL STATEMENT of the first claim (not provable, the faithful model refutes it):
       forall o x tag, exists l, runs after (exec o x tag) = runs x ++ l /\ (l = [] \/ l = [tag]).
-    It fails exactly through scripts whose OWN reply is an error starting with "NOSCRIPT": the client
-    classifies replies by that prefix (RedisError.IsNoScript), so an EVALSHA that ran such a body is
-    followed by EVAL, which runs the body again.  Proved instead: [C30_at_most_once_refuted] (witness),
+    It fails exactly through scripts whose OWN reply is an ERROR starting with "NOSCRIPT" (after an
+    optional "ERR "): the client classifies error replies by that prefix (RedisError.IsNoScript), so an
+    EVALSHA that ran such a body is followed by EVAL, which runs the body again.  The kind of a reply is
+    explicit in the model: a NON-error reply (status, bulk, integer, array) whose text starts with
+    NOSCRIPT never triggers the fallback ([C30_non_error_reply_never_falls_back]); the hypothesis of
+    [C30_at_most_once_partial] excludes error bodies only, so such scripts run at most once.  Proved instead: [C30_at_most_once_refuted] (witness),
     [C30_at_most_once_characterised] (never more than twice; twice only if an un-faulted command's body
     replied NOSCRIPT) and [C30_at_most_once_partial] (at most once when no body replies NOSCRIPT — every
     script that does not fabricate that error, whatever the cache/fault behaviour). *)
@@ -36,6 +39,7 @@ Proof.
 Qed.
 Print Assumptions C30_at_most_once_refuted.
 
+(** never more than twice, and twice ONLY via an un-faulted body whose reply is an ERROR with the NOSCRIPT prefix *)
 Theorem C30_at_most_once_characterised : forall (o : opts) (x : xstate) (tag : N),
   exists l, runs (server (fst (exec o x tag))) = runs (server x) ++ l /\
     (l = [] \/ l = [tag] \/ l = [tag; tag]) /\
@@ -45,6 +49,29 @@ Proof.
   intros H2. exact (exec_twice_only_if o x tag l Hl H2).
 Qed.
 Print Assumptions C30_at_most_once_characterised.
+
+(** the fallback test is "an ERROR reply with the NOSCRIPT prefix", nothing else *)
+Theorem C30_noscript_is_an_error_reply : forall r, is_noscript r = true -> r = RErr ENoScript.
+Proof. intros [v k|[]]; cbn; intros H; try discriminate; reflexivity. Qed.
+Print Assumptions C30_noscript_is_an_error_reply.
+
+(** a non-error reply to EVALSHA / EVALSHA_RO — whatever its text, "NOSCRIPT …" included — ends the call: no EVAL
+    is sent, so the body does not run again *)
+Theorem C30_non_error_reply_never_falls_back : forall (o : opts) (x : xstate) (tag : N), consistent o (known x) = true ->
+  exists added, trace (fst (exec o x tag)) = trace x ++ added /\
+    (forall p, In p added -> is_sha (fst (fst p)) = true -> is_ok (snd p) = true ->
+       forall q, In q added -> fst (fst q) <> eval_cmd o).
+Proof.
+  intros o x tag Hc. destruct (exec_facts o x tag Hc) as [added [Ht Hf]]. exists added. split; [exact Ht|].
+  unfold facts_b in Hf. apply andb_prop in Hf. destruct Hf as [_ Hf].
+  intros p Hp Hs Hok q Hq Heq.
+  assert (H1 : existsb (fun p => is_sha (ckind p) && is_ok (crep p)) added = true).
+  { apply existsb_exists. exists p. split; [exact Hp|]. unfold ckind, crep. rewrite Hs, Hok. reflexivity. }
+  assert (H2 : existsb (fun p => cmdk_eqb (ckind p) (eval_cmd o)) added = true).
+  { apply existsb_exists. exists q. split; [exact Hq|]. unfold ckind. rewrite Heq. destruct (eval_cmd o); reflexivity. }
+  rewrite H1, H2 in Hf. discriminate.
+Qed.
+Print Assumptions C30_non_error_reply_never_falls_back.
 
 (** the decision tree: the commands one Exec sends form  [SCRIPT LOAD]? (EVAL | EVALSHA | EVALSHA EVAL),
     EVAL follows EVALSHA only after a NOSCRIPT reply, SCRIPT LOAD is sent iff LoadSHA1 is on and the SHA-1 is
@@ -134,15 +161,24 @@ Theorem C30_multi_positional : forall (o : opts) (x : xstate) (tags : list N), c
 Proof. exact exec_multi_spec. Qed.
 Print Assumptions C30_multi_positional.
 
+(** non-vacuity of the new distinction: a cached script whose SUCCESSFUL reply is the text "NOSCRIPT …" runs once,
+    one EVALSHA is sent, and the caller gets that text *)
+Example C30_nonvacuous_text :
+  let o := {| readonly := false; nosha := false; loadsha := false |} in
+  let x := init o true [{| flush_before := false; flt := FNone; body := BRet KNoScriptText |}] in
+  map fst (trace (fst (exec o x 5))) = [(CEvalsha, 5)] /\ runs (server (fst (exec o x 5))) = [5]
+  /\ snd (exec o x 5) = ROk 5 KNoScriptText.
+Proof. vm_compute. repeat split; reflexivity. Qed.
+
 (** non-vacuity: NOSCRIPT fallback after a flush, a LoadSHA1 history with a failing first load, ExecMulti *)
 Example C30_nonvacuous :
   let o := {| readonly := false; nosha := false; loadsha := false |} in
-  let x := init o true [{| flush_before := true; flt := FNone; body := BRet |}] in
+  let x := init o true [{| flush_before := true; flt := FNone; body := BRet KPlain |}] in
   map fst (trace (fst (exec o x 5))) = [(CEvalsha, 5); (CEval, 5)] /\ runs (server (fst (exec o x 5))) = [5]
   /\
   (let o2 := {| readonly := true; nosha := false; loadsha := true |} in
-   let env := [{| flush_before := false; flt := FReject ERedis; body := BRet |}] in
+   let env := [{| flush_before := false; flt := FReject ERedis; body := BRet KPlain |}] in
    let '(x2, vs) := lrun o2 (init o2 false env) [LExec 1; LExec 2; LMulti [3; 4]; LExec 5] in
    map fst (trace x2) = [(CScriptLoad, 0); (CScriptLoad, 0); (CEvalshaRo, 2); (CScriptLoad, 0); (CEvalshaRo, 3); (CEvalshaRo, 4); (CEvalshaRo, 5)]
-   /\ vs = [OOne (RErr ERedis); OOne (ROk 2); OMany [ROk 3; ROk 4]; OOne (ROk 5)] /\ runs (server x2) = [2; 3; 4; 5]).
+   /\ vs = [OOne (RErr ERedis); OOne (ROk 2 KPlain); OMany [ROk 3 KPlain; ROk 4 KPlain]; OOne (ROk 5 KPlain)] /\ runs (server x2) = [2; 3; 4; 5]).
 Proof. vm_compute. repeat split; reflexivity. Qed.
